@@ -603,7 +603,13 @@ func parseValue(p *cfgPrimitive, opts *options, str string, parseCfg parse.Confi
 		return newString(p.ctx, p.meta(), v), nil
 	}
 
-	sub, err := normalize(opts, ifc)
+	// What an expansion yields is data: text in it that looks like a
+	// reference is not expanded again, inside a list or object no more than
+	// in a plain string (an environment value "[${X}]" for X would otherwise
+	// be expanded forever).
+	plain := *opts
+	plain.varexp = false
+	sub, err := normalize(&plain, ifc)
 	if err != nil {
 		return nil, err
 	}
